@@ -78,6 +78,14 @@ class Infra(Exception):
 def build(work, race=False):
     out = os.path.join(work, "props.race.test" if race else "props.test")
     cmd = ["go", "test", "-c", "-tags", "verif", "-o", out]
+    if os.path.realpath(REPO) != "/repo":
+        # development aid (sensitivity experiments against a scratch worktree):
+        # registered commands never set VERIF_REPO
+        alt = os.path.join(work, "alt.mod")
+        mod = open(os.path.join(HARNESS, "go.mod")).read().replace("=> /repo", "=> " + os.path.realpath(REPO))
+        open(alt, "w").write(mod)
+        shutil.copy(os.path.join(HARNESS, "go.sum"), os.path.join(work, "alt.sum"))
+        cmd.append("-modfile=" + alt)
     if race:
         cmd.append("-race")
     cmd.append("./props")
